@@ -24,7 +24,7 @@ theorem tables_agree :
     Gen.triggerTypes = trigTypes ∧ Gen.triggerMatchTypes = matchTypes ∧
     Gen.triggerMatchGuard = trigKeyword ∧ Gen.triggerCtorKeyword = trigKeyword ∧
     Gen.triggerDefaultMatch = defaultMatch ∧ Gen.fieldKeyMaxLen = maxKeyLen ∧
-    Gen.campaignMessageKey = messageKey ∧ Gen.campaignDefaultLang = defaultLang ∧
+    Gen.campaignMessageKey = none ∧ Gen.campaignDefaultLang = defaultLang ∧
     Gen.campaignDefaultHour = defaultHour ∧
     Gen.campaignRowFields = campFields ∧ Gen.triggerRowFields = trigFields := by decide
 
@@ -81,7 +81,8 @@ def eventSpec (r : CampRow) (e : Event) : Prop :=
   e.startMode = r.startMode ∧
   e.relLabel = r.relativeTo ∧
   generateFieldKey r.relativeTo = .ok e.relKey ∧
-  e.message = (if r.message = [] then none else some (messageKey, r.message)) ∧
+  e.message = (if r.message = [] then none else
+    some ((if r.baseLanguage = [] then defaultLang else r.baseLanguage), r.message)) ∧
   e.baseLanguage =
     (if r.message = [] then none else some (if r.baseLanguage = [] then defaultLang else r.baseLanguage)) ∧
   e.flowName = (if r.flow = [] then none else some r.flow)
@@ -268,14 +269,9 @@ example : CampValid row1 ∧ CampValid row2 := by
 example : CampInvalid { row1 with unit := "X".toList } := Or.inl (by decide)
 example : CampInvalid { row1 with message := [] } := Or.inr (Or.inr (Or.inr ⟨by decide, rfl⟩))
 
-/-- The statement says "the message with its base language".  Read as "the message dict is
-keyed by the event's base language", this is the full claim … -/
-def campaign_message_lang_full : Prop :=
-  ∀ r e, eventOfRow r = .ok e → ∀ k t l, e.message = some (k, t) → e.baseLanguage = some l → k = l
-
-/-- … which holds only for rows whose `base_language` is blank or the default. -/
-theorem campaign_message_lang_partial (r : CampRow) (e : Event) (h : eventOfRow r = .ok e)
-    (hb : r.baseLanguage = [] ∨ r.baseLanguage = defaultLang) :
+/-- "The message with its base language": the message dict is keyed by the event's base
+language (former finding F-C19-a, fixed in /repo: the key used to be the literal `eng`). -/
+theorem campaign_message_lang (r : CampRow) (e : Event) (h : eventOfRow r = .ok e) :
     ∀ k t l, e.message = some (k, t) → e.baseLanguage = some l → k = l := by
   have hs := eventOfRow_spec r e h
   obtain ⟨_, _, _, _, _, _, _, hm, hl, _⟩ := hs
@@ -285,30 +281,15 @@ theorem campaign_message_lang_partial (r : CampRow) (e : Event) (h : eventOfRow 
   · simp only [hmsg, if_false] at hm hl
     rw [hm] at h1; rw [hl] at h2
     injection h1 with h1; injection h2 with h2
-    have hk : k = messageKey := by injection h1 with a b; exact a.symm
-    rcases hb with hb | hb
-    · simp [hb] at h2; rw [hk, ← h2]; rfl
-    · simp [hb] at h2
-      rw [hk, ← h2]
-      rfl
+    have hk : k = (if r.baseLanguage = [] then defaultLang else r.baseLanguage) := by
+      injection h1 with a b; exact a.symm
+    rw [hk, h2]
 
 example : eventOfRow row1 = .ok
     { offset := 10, unit := "H".toList, eventType := "M".toList, deliveryHour := 7,
       startMode := "I".toList, relLabel := "Created On".toList, relKey := "created_on".toList,
       message := some ("eng".toList, "hi".toList), flowName := none,
       baseLanguage := some "eng".toList } := by decide +kernel
-
-/-- negative witness (F-C19-a): with `base_language = fra` the message is still keyed `eng` -/
-theorem message_lang_needs_default : ¬ campaign_message_lang_full := by
-  intro h
-  have := h { row1 with baseLanguage := "fra".toList } _ (by decide +kernel : eventOfRow _ = .ok
-    { offset := 10, unit := "H".toList, eventType := "M".toList, deliveryHour := 7,
-      startMode := "I".toList, relLabel := "Created On".toList, relKey := "created_on".toList,
-      message := some ("eng".toList, "hi".toList), flowName := none,
-      baseLanguage := some "fra".toList }) _ _ _ rfl rfl
-  exact absurd this (by decide)
-
-/-! ### trigger sheets -/
 
 /-- the statement's field list for one trigger row, written out -/
 def triggerSpec (r : TrigRow) (t : Trigger) : Prop :=
